@@ -1,5 +1,114 @@
-import SteelVerif.C05.Model
+/-
+C05 — property theorems: shared-value reference counting is sound under every interleaving.
+
+Model: `Model.lean` (one object of `steel_rc::BiasedRc`, any number of threads, every shared access
+an atomic step).  All theorems quantify over *every* schedule, i.e. every history of operations and
+every interleaving of their atomic steps, with no bound on the number of threads or steps.
+-/
+import SteelVerif.C05.StepE
 namespace SteelVerif.C05
+
+/-- Every step of the transition system preserves the invariant. -/
+theorem step_inv {s s' : State} {t : Tid} {a : Act} {o : Out} (h : Inv s)
+    (hs : step s t a = some (s', o)) : Inv s' := by
+  cases a with
+  | spawn => exact case_spawn h s' o hs
+  | _ =>
+    all_goals
+      cases hth : s.threads[t]? with
+      | none => simp [step, hth] at hs
+      | some th =>
+        cases hpc : th.pc
+        all_goals first
+          | exact case_new h hth hpc s' o hs
+          | exact case_clone h hth hpc s' o hs
+          | exact case_drop h hth hpc s' o hs
+          | exact case_move h hth hpc _ s' o hs
+          | exact case_unique h hth hpc s' o hs
+          | exact case_unwrap h hth hpc s' o hs
+          | exact case_count h hth hpc s' o hs
+          | exact case_register h hth hpc s' o hs
+          | exact case_merge h hth hpc s' o hs
+          | exact case_exit h hth hpc s' o hs
+          | exact case_incLoad h hth hpc s' o hs
+          | exact case_incCas _ h hth hpc s' o hs
+          | exact case_dfLoad _ h hth hpc s' o hs
+          | exact case_dfCas _ _ h hth hpc s' o hs
+          | exact case_dfSetNone _ h hth hpc s' o hs
+          | exact case_dsLoad _ h hth hpc s' o hs
+          | exact case_dsCas _ _ h hth hpc s' o hs
+          | exact case_enq _ h hth hpc s' o hs
+          | exact case_free _ h hth hpc s' o hs
+          | exact case_uqOwner h hth hpc s' o hs
+          | exact case_uqLoadNone h hth hpc s' o hs
+          | exact case_uqLoadOwn h hth hpc s' o hs
+          | exact case_uwOwner h hth hpc s' o hs
+          | exact case_uwLoadNone h hth hpc s' o hs
+          | exact case_uwCas _ h hth hpc s' o hs
+          | exact case_uwLoadOwn h hth hpc s' o hs
+          | exact case_uwFree _ h hth hpc s' o hs
+          | exact case_mgLoad _ _ _ h hth hpc s' o hs
+          | exact case_mgCas _ _ _ _ h hth hpc s' o hs
+          | exact case_mgSetNone _ _ _ h hth hpc s' o hs
+          | (simp [step, hth, hpc] at hs)
+
+/-- The invariant holds in every state reachable by any schedule. -/
+theorem run_inv (sched : List (Tid × Act)) : ∀ {s : State}, Inv s → Inv (run s sched) := by
+  induction sched with
+  | nil => intro s h; exact h
+  | cons x rest ih =>
+    intro s h
+    obtain ⟨t, a⟩ := x
+    simp only [run]
+    cases hs : step s t a with
+    | none => exact h
+    | some r => obtain ⟨s', o⟩ := r; exact ih (step_inv h hs)
+
+theorem inv_ok {s : State} (h : Inv s) : s.ok := by
+  obtain ⟨f1, f2, f3, f4⟩ := h.flags
+  refine ⟨f1, f2, f3, f4, ?_, h.frees.1⟩
+  rw [h.frees.2]; split <;> omega
+
+/-- **C05 (safety), full statement.**  For every history of create / clone / drop / move / unique
+access / unwrap / count / register / merge / thread-exit operations by any number of threads, and for
+every interleaving of the atomic steps those operations are made of: the object is never accessed
+after it was freed, it is freed (and its destructor run) at most once, it is freed only when no
+reference is held, and exclusive access is granted only to the holder of the only reference. -/
+theorem rc_safe (sched : List (Tid × Act)) : (run init sched).ok :=
+  inv_ok (run_inv sched inv_init)
+
+theorem no_access_after_free (sched : List (Tid × Act)) : (run init sched).uaf = false :=
+  (rc_safe sched).1
+
+theorem unique_access_sound (sched : List (Tid × Act)) : (run init sched).badUnique = false :=
+  (rc_safe sched).2.1
+
+theorem freed_only_without_references (sched : List (Tid × Act)) :
+    (run init sched).earlyFree = false := (rc_safe sched).2.2.1
+
+theorem destroyed_at_most_once (sched : List (Tid × Act)) :
+    (run init sched).frees ≤ 1 ∧ (run init sched).drops = (run init sched).frees :=
+  ⟨(rc_safe sched).2.2.2.2.1, (rc_safe sched).2.2.2.2.2⟩
+
+/-- While any reference exists the object is alive (its contents are intact). -/
+theorem alive_while_referenced (sched : List (Tid × Act)) :
+    let s := run init sched
+    s.created = true → 0 < s.total → s.alive = true := by
+  intro s hc ht
+  have h : Inv s := run_inv sched inv_init
+  cases ha : s.alive
+  · have := h.dead hc ha; omega
+  · rfl
+
+/-- The ghost reference count is what it claims to be: the number of references held by the
+threads' variables, in flight, and owned by queue entries. -/
+theorem total_is_sum (sched : List (Tid × Act)) :
+    let s := run init sched
+    s.total = sumHeld s.threads + sumTemp s.threads + sumQ s.threads := by
+  intro s
+  obtain ⟨a, b, c, _⟩ := (run_inv sched inv_init : Inv s).sums
+  show (run init sched).gH + (run init sched).gT + (run init sched).gQ = _
+  rw [← a, ← b, ← c]
 
 /-- Non-vacuity: a concrete 2-thread history (create, clone, move, both drop, owner merges)
 is executable and ends with the object freed exactly once. -/
@@ -7,6 +116,11 @@ theorem example_history_frees_once :
     let s := run init [(0, .spawn), (1, .spawn), (0, .register), (0, .new), (0, .clone),
       (0, .move 1), (0, .drop), (1, .drop), (1, .step), (1, .step), (1, .step),
       (0, .merge), (0, .step), (0, .step), (0, .step), (0, .step), (0, .step), (0, .step)]
-    s.frees = 1 ∧ s.ok := by decide
+    s.frees = 1 ∧ s.ok ∧ s.created = true ∧ s.alive = false := by decide
+
+/-- Non-vacuity of `unique_access_sound`: exclusive access *is* granted in a reachable state. -/
+theorem example_unique_granted :
+    (step (run init [(0, .spawn), (0, .new), (0, .unique), (0, .step)]) 0 .step).map (·.2) =
+      some (.done "true") := by decide
 
 end SteelVerif.C05
